@@ -9,6 +9,7 @@ import (
 	"fmt"
 	"strconv"
 	"strings"
+	"time"
 
 	"github.com/hedzr/logg/slog"
 )
@@ -80,6 +81,9 @@ func lfTokenize(s string) ([]lfPair, error) {
 			}
 		}
 		out = append(out, lfPair{key, s[start:j]})
+		if j < len(s) && s[j] != ' ' {
+			return nil, fmt.Errorf("no space between the value of %q and what follows: %q", key, s[start:min(len(s), j+12)])
+		}
 		i = j
 	}
 	return out, nil
@@ -122,6 +126,16 @@ func runC05(r *run) {
 	for i := 0; i < n; i++ {
 		c := &encCase{format: "l", lvl: encLevels[g.intn(len(encLevels))], ts: g.encTime(), msg: g.encMessage(true, false),
 			attrs: g.genAttrs(g.intn(9), 3, true, false), caller: g.chance(1, 4), tagW: 3, minW: 36}
+		if g.chance(1, 8) {
+			// a group member named like the reserved field: its full key (req.time) is an ordinary key
+			t := time.Unix(int64(g.intn(2000000000)), int64(g.intn(1000000000))).In(time.FixedZone("", (g.intn(27)-12)*3600))
+			leaf := gattr{key: "time", val: gval{kind: "time", goVal: t, tok: "T:" + hxs(t.Format(time.RFC3339Nano)), text: t.Format(time.RFC3339Nano)}}
+			items := []gattr{leaf}
+			if g.chance(1, 2) {
+				items = []gattr{{key: "inner", isGroup: true, val: gval{kind: "group", items: []gattr{leaf}}}, {key: "n", val: gval{kind: "int", goVal: 1, tok: "I:1"}}}
+			}
+			c.attrs = append(c.attrs, gattr{key: "req", isGroup: true, val: gval{kind: "group", items: items}})
+		}
 		if g.chance(1, 2) {
 			c.name = []string{"app", "my logger", "q\"uote"}[g.intn(3)]
 		}
